@@ -175,6 +175,24 @@ func c02WriteOrder(r *Run, wf *ssa.Function) {
 		}
 		r.Check(okp, "error-propagation", "WriteFcall: Marshal error returned", m.Pos(), "Marshal error is dropped")
 	}
+	// nothing stays behind in the buffered writer: once sendmsg has put the frame into the buffer, every way out of
+	// WriteFcall goes through Flush (a frame left in the buffer by a call that returned an error is emitted by the
+	// next call: "nothing emitted on error" and "exactly one frame per call" both fail)
+	for _, ret := range returnsOf(wf) {
+		for _, sd := range snd {
+			if !(instrDominates(sd, ret) && callSucceededAt(sd, ret)) {
+				continue
+			}
+			ok := false
+			for _, f := range fl {
+				if instrDominates(f, ret) {
+					ok = true
+				}
+			}
+			r.Check(ok, "write-order", "WriteFcall: every exit after a successful sendmsg has flushed the frame", ret.Pos(),
+				"WriteFcall can return after sendmsg without Flush: the frame stays in the buffer and goes out with a later call (an errored call emits its message after all; the next call emits two frames)")
+		}
+	}
 	// a nil return of WriteFcall requires a successful flush: every `return nil` const is dominated by Flush success,
 	// or the function returns Flush's result directly.
 	for _, ret := range returnsOf(wf) {
